@@ -295,3 +295,58 @@ def r16_6_week_year_admission(ctx: Ctx) -> RuleResult:
             else:
                 rr.fail(f.qual, f"on the ordering {label} the admitted week-years are {[(repr(a), repr(b)) for a, b in seen]}, a week-year with a day inside the calendar needs [{int(want[0].lo)}, {int(want[1].lo)}]", ctx.loc(f))
     return rr
+
+
+@rule("C16")
+def r16_cfp_calendar_free_productions(ctx: Ctx) -> RuleResult:
+    from ..retention import check_calendar_free_productions
+
+    rr = RuleResult("R16.cfp", "no calendar-bearing result is assembled from calendar-free pieces (day number, instant, local instant) while a calendar-bearing value is in hand", min_instances=100)
+    check_calendar_free_productions(ctx, rr)
+    return rr
+
+
+@rule("C16")
+def r16_7_memo_keys(ctx: Ctx) -> RuleResult:
+    """A week-year rule object is shared by all calendars (WeekYearRules.iso is one object): anything it memoises must be keyed on
+    the calendar as well as the week-year (home of the analysis: sa/memo.py)."""
+    from ..memo import memo_tables
+
+    rr = RuleResult("R16.7", "week-year rules and date adjusters memoise nothing under a key that leaves out a parameter the value depends on", min_instances=0)
+    files = anchor_files("C16")
+    for mt in memo_tables(ctx.M, files):
+        rr.inst()
+        if mt.problem:
+            rr.fail(mt.fn.qual, mt.problem, ctx.loc(mt.fn, mt.node))
+        else:
+            rr.ok({"memo": mt.fn.qual, "key": mt.store_key[:60]})
+    # the rule is expected to find no memo table at all in these files today: keep a positive control so that it cannot rot
+    control = [m for m in memo_tables(ctx.M) if m.table != "functools.cache"]
+    rr.inst()
+    if control:
+        rr.ok({"control": f"{len(control)} memo tables recognised elsewhere in the package (e.g. {control[0].fn.qual})"})
+    else:
+        raise AnalysisError("memo-table recogniser finds nothing in the whole package (year-start caches expected)")
+    return rr
+
+
+@rule("C16")
+def r16_8_nth_weekday_total(ctx: Ctx) -> RuleResult:
+    """LocalDate.from_year_month_week_and_day always has an answer inside the requested month, so date arithmetic that can step
+    outside the calendar (and raise OverflowError in its last month) must not be on its way: no explicit `raise OverflowError`
+    is reachable from it (exception-effect analysis over the resolved call graph)."""
+    from ..exc import ExcAnalysis, ExcConfig
+
+    rr = RuleResult("R16.8", "the n-th weekday of a month is found without date arithmetic that can overflow the calendar (no OverflowError reachable)", min_instances=1)
+    f = ctx.M.func("LocalDate.from_year_month_week_and_day", required=True)
+    A = ExcAnalysis(ctx, ExcConfig())
+    esc = A.escapes(f)
+    it = esc.values() if isinstance(esc, dict) else esc
+    bad = sorted({(e.fn, e.what) for e in it if e.exc == "OverflowError" and e.kind == "raise"})
+    rr.inst()
+    rr.states += A.calls_seen
+    if bad:
+        rr.fail(f.qual, f"reaches `{bad[0][1][:60]}` in {bad[0][0]}: for the last month of the calendar the search steps past the end and raises although the requested weekday exists", ctx.loc(f))
+    else:
+        rr.ok({"fn": f.qual, "calls analysed": A.calls_seen})
+    return rr
